@@ -237,6 +237,80 @@ Theorem C07_LA_pipe_btr_cer_complete :
 Proof. exact pipe_btr_cer_complete. Qed.
 Print Assumptions C07_LA_pipe_btr_cer_complete.
 
+(* ---------------------------------------------------------------- fourth round *)
+Require Import UPV.Compilers.LayerA_Uinr UPV.Compilers.LayerA_Utfr.
+
+(* UndefinedInitialNumericRemover; [orig_no_comp] (decidable): no original effect targets a companion fluent *)
+Theorem C07_LA_pipe_uinr_stage_certified :
+  forall (umap : list (N * N)) (P : problem), uinr_ok umap P = true -> orig_no_comp umap P = true ->
+    certified (uinr_stage umap P).
+Proof. exact uinr_stage_certified. Qed.
+Print Assumptions C07_LA_pipe_uinr_stage_certified.
+
+(* UsertypeFluentsRemover: the Boolean encoding determines the object-valued state *)
+Theorem C07_LA_pipe_utfr_stage_certified :
+  forall (tr smp : expr -> expr) (P : problem) (G : state -> Prop) (Q : pstep -> Prop),
+    smp_exact smp -> utfr_wf tr smp P = true -> tr_ok tr P -> effects_defined P G -> LayerA_Utfr.one_value P G ->
+    closed P G -> unique_ids P -> certified (utfr_stage tr smp G Q P).
+Proof. exact utfr_stage_certified. Qed.
+Print Assumptions C07_LA_pipe_utfr_stage_certified.
+
+(* the fake-goal compile: a certified stage with ONE auxiliary step; [orig_no_fk] (decidable): no original effect
+   targets fk *)
+Theorem C07_LA_pipe_dcrg_stage_certified :
+  forall (cdnf : expr -> list expr) (pre_dnf : action -> list (list expr)) (nm : N -> nat -> N) (fk : N)
+         (gnm : nat -> N) (gds : list (list expr)) (P : problem),
+    unique_ids P -> unique_ids (dcrg_compile cdnf pre_dnf nm fk gnm gds P) ->
+    dcrg_fresh cdnf pre_dnf nm fk gds P = true -> orig_no_fk fk P = true ->
+  forall G : state -> Prop,
+    (forall s aid a args t, G s -> lookup_action P aid = Some a -> spec_step false P s a args = Some t -> G t) ->
+    (forall s args i a, G s -> In (i, a) (p_actions P) -> Forall (dnf_effect_ok cdnf P s a args) (a_effs a)) ->
+    (forall s args i a, G s -> In (i, a) (p_actions P) ->
+       existsb (all_hold false (mk_interp P s (zip_params (a_params a) args))) (pre_dnf a) =
+       all_hold false (mk_interp P s (zip_params (a_params a) args)) (a_pre a)) ->
+    (forall s, G s -> existsb (all_hold false (mk_interp P s [])) gds = all_hold false (mk_interp P s []) (p_goals P)) ->
+    (forall s args i a d, G s -> In (i, a) (p_actions P) -> In d (pre_dnf a) ->
+       add_effs_ok [] [] (a_effs (dnf_variant cdnf a d)) = false ->
+       all_hold false (mk_interp P s (zip_params (a_params a) args)) d = true -> applicable P s a args = false) ->
+    certified (dcrg_stage cdnf pre_dnf nm fk gnm gds G P) /\
+    st_aux (dcrg_stage cdnf pre_dnf nm fk gnm gds G P) = 1%nat.
+Proof. intros. split; [apply dcrg_stage_certified; assumption | reflexivity]. Qed.
+Print Assumptions C07_LA_pipe_dcrg_stage_certified.
+
+(* CLOSED THEOREM for CompilersPipeline([Grounder(), NegativeConditionsRemover()]) *)
+Theorem C07_LA_pipe_ground_ncr_complete :
+  forall (smp : expr -> expr) (tuples : N -> list (list value)) (gnm : N -> nat -> N) (P : problem) (G1 : state -> Prop),
+    smp_exact_on P G1 smp -> unique_ids P -> unique_ids (ground_compile smp tuples gnm P) ->
+    (forall s aid a args t, G1 s -> lookup_action P aid = Some a -> spec_step false P s a args = Some t -> G1 t) ->
+    instances_ok smp tuples P ->
+  forall (nmap : list (N * N)) (rw smp2 : expr -> expr),
+    nmap_ok nmap (ground_compile smp tuples gnm P) = true -> problem_clean nmap (ground_compile smp tuples gnm P) = true ->
+    ncr_safe nmap (ground_compile smp tuples gnm P) = true -> rw_ok nmap rw (ground_compile smp tuples gnm P) ->
+    smp_exact smp2 ->
+    (forall s i a args, G1 s -> In (i, a) (p_actions P) -> In args (tuples i) ->
+       add_effs_ok [] [] (g_effects smp (zip_params (a_params a) args) (a_effs a)) = false ->
+       spec_step false P s a args = None) ->
+  forall (s0 s0' : state) (pi : pplan), G1 s0 -> neg_rel nmap s0 s0' -> plan_in_tuples tuples pi ->
+    valid_plan false P s0 pi = true ->
+    exists pi', (length pi' <= length pi)%nat /\
+                valid_plan false (neg_compile nmap rw smp2 (ground_compile smp tuples gnm P)) s0' pi' = true /\
+                sub_noop_eq P s0 pi (pback (pipeline_back (gn_stages smp tuples gnm G1 nmap rw smp2 P)) pi').
+Proof. exact pipe_ground_ncr_complete. Qed.
+Print Assumptions C07_LA_pipe_ground_ncr_complete.
+
+(* "pipeline:usertype+quantifiers+disjunctive": certified stages give a certified pipeline with bound 0 + 0 + 1 *)
+Theorem C07_LA_pipe_uqd_certified :
+  forall (tr smp1 smp : expr -> expr) (G0 G2 : state -> Prop) (cdnf : expr -> list expr)
+         (pre_dnf : action -> list (list expr)) (nm : N -> nat -> N) (fk : N) (gnm : nat -> N) (gds : list (list expr))
+         (P : problem),
+    Forall certified (uqd_stages tr smp1 G0 smp cdnf pre_dnf nm fk gnm gds G2 P) ->
+    certified (compose_all (uqd_stages tr smp1 G0 smp cdnf pre_dnf nm fk gnm gds G2 P)
+                           (uqd_dst tr smp1 smp cdnf pre_dnf nm fk gnm gds P)) /\
+    st_aux (compose_all (uqd_stages tr smp1 G0 smp cdnf pre_dnf nm fk gnm gds G2 P)
+                        (uqd_dst tr smp1 smp cdnf pre_dnf nm fk gnm gds P)) = 1%nat.
+Proof. intros. split; [apply pipe_uqd_certified; assumption | reflexivity]. Qed.
+Print Assumptions C07_LA_pipe_uqd_certified.
+
 (* ---------------------------------------------------------------- non-vacuity (instances of Props/C06_pipe.v) *)
 Example C07_LA_pipe_quant_cer_complete_nonvacuous :
   no_action_dropped C06_pipe.LP.idsmp C06_pipe.LP.Pp /\
